@@ -193,7 +193,13 @@ assert(idx + 1 == itv__.seq().len() ==> any_cached(rrs@, recs_g, *name, now)) by
         forall|a: K1, b: K1| #[trigger] call_ensures(<K1 as Clone>::clone, (&a,), b) ==> a == b,
     ensures final(self).wf(), // [C15:cache_invariants_kept_by_upsert]
         final(self).desired_size == old(self).desired_size,
-        final(self).current_size <= old(self).current_size + 1,""",
+        final(self).current_size <= old(self).current_size + 1,
+        forall|k: K1| k != partition_key ==> (#[trigger] final(self).partitions@.contains_key(k) <==> old(self).partitions@.contains_key(k)), // [C05:other_names_untouched]
+        forall|k: K1| k != partition_key && old(self).partitions@.contains_key(k) ==> (#[trigger] final(self).partitions@[k]).records == old(self).partitions@[k].records, // [C05:other_names_untouched]
+        final(self).partitions@.contains_key(partition_key),
+        exists|now: Instant, e: Instant, d: Option<int>| #[trigger] is_now(now) && inst(e) == inst(now) + dur(ttl)
+            && #[trigger] upsert_recs(recs_or_empty(old(self).partitions@, partition_key), final(self).partitions@[partition_key].records@, record_key, (value, e), d)
+            && dup_ok(recs_or_empty(old(self).partitions@, partition_key), record_key, value, d), // [C05:reinsert_restarts_lifetime_without_duplicate]""",
         "entry": "broadcast use vstd::std_specs::hash::group_hash_axioms, axiom_borrowed_key_updated, group_time;",
         "extra_rewrites": [R23],
         "anchors": [
@@ -277,6 +283,23 @@ def build(G):
     for f in ("get", "get_without_checking_expiration", "insert", "prune"):
         specs["Cache::" + f] = dict(specs["Cache::" + f], rewrites=specs["Cache::" + f].get("extra_rewrites", []), depub=True)
     G.impl(C, "Cache", ["get", "get_without_checking_expiration", "insert", "prune"], "Cache::", specs)
+    # SharedCache: R9 stand-in for Arc<Mutex<Cache>>: `lock()` yields exclusive access to the one Cache; the guard's `insert` is
+    # Cache::insert with the property's clause as a call-site obligation (a TTL-zero record is never handed to the cache)
+    G.raw("""#[verifier::external_body]
+pub struct SharedCache { cache: std::sync::Arc<std::sync::Mutex<Cache>> }
+pub struct LockedCache { g: u8 }
+impl LockedCache {
+    #[verifier::external_body]
+    pub fn insert(&mut self, record: &ResourceRecord)
+        requires record.ttl > 0, // [C05:shared_cache_never_stores_ttl_zero]
+    { unimplemented!() }
+}
+#[verifier::external_body]
+fn shim_lock_cache(c: &SharedCache) -> (r: LockedCache) { unimplemented!() }""", ("spec", "SharedCache stand-in (R9)"))
+    r9 = [("R9", r"self\.cache\.lock\(\)\.expect\(MUTEX_POISON_MESSAGE\)", "shim_lock_cache(self)")]
+    specs["SharedCache::insert"] = {"props": ["C05"], "contract": "", "rewrites": r9}
+    specs["SharedCache::insert_all"] = {"props": ["C05"], "contract": "", "rewrites": r9}
+    G.impl(C, "SharedCache", ["insert", "insert_all"], "SharedCache::", specs)
     end(G)
 
 
@@ -287,5 +310,10 @@ CANARIES = [
     {"name": "lru_forgets_size", "file": CACHE, "old": "                self.current_size -= pruned;\n                pruned\n            } else {\n                0\n            }\n        } else {\n            0\n        }\n    }\n}", "new": "                pruned\n            } else {\n                0\n            }\n        } else {\n            0\n        }\n    }\n}"},
     {"name": "upsert_no_dedup_count", "file": CACHE, "old": "                    partition.size -= 1;\n", "new": ""},
     {"name": "upsert_min_over_type_only", "file": CACHE, "old": "for tuples in partition.records.values() {", "new": "for tuples in partition.records.get(&record_key) {"},
+    {"name": "shared_insert_ttl_zero", "file": CACHE, "old": "        if record.ttl > 0 {\n            let mut cache", "new": "        if record.ttl >= 0 {\n            let mut cache"},
+    {"name": "insert_all_no_ttl_check", "file": CACHE, "old": "            if record.ttl > 0 {\n                cache.insert(record);\n            }", "new": "            cache.insert(record);"},
+    {"name": "ttl_rounds_up", "file": CACHE, "old": "                .as_secs()\n                .try_into()", "new": "                .as_secs()\n                .saturating_add(1)\n                .try_into()"},
+    {"name": "get_keeps_expired", "file": CACHE, "old": "        rrs.retain(|rr| rr.ttl > 0);\n", "new": ""},
+    {"name": "expiry_ignores_ttl", "file": CACHE, "old": "let expiry = now + ttl;", "new": "let expiry = now + ttl + ttl;"},
     {"name": "lookup_drops_access_update", "file": CACHE, "old": "                partition.last_read = Instant::now();\n                self.access_priority", "new": "                partition.last_read = Instant::now();\n                self.expiry_priority"},
 ]
